@@ -41,6 +41,9 @@ def case_hash(ops):
 def run(prop, components, tier, lean_targets=(), level_text="", assumptions=(), replay=None, partial_note=""):
     t0 = time.time()
     seed = vlib.seed()
+    # all minimisation of one run shares a wall-clock allowance (a failing case is reported unminimised beyond it)
+    vlib.MINIMISE_DEADLINE[0] = None
+    minimise_allowance = 240 if tier == "quick" else 1500
     if replay:
         return do_replay(prop, components, replay)
     st = vlib.lean_stage(prop, list(lean_targets), tier)
@@ -127,8 +130,11 @@ def run(prop, components, tier, lean_targets=(), level_text="", assumptions=(), 
                 ops = cr.ops
                 cut = (max(o for o, _ in cr.oracle) if want_oracle else cr.first_diff + 1)
                 ops = ops[:max(cut, 1)] if not want_oracle else ops[:max(min(o for o, _ in cr.oracle), 1)]
+                if vlib.MINIMISE_DEADLINE[0] is None:
+                    vlib.MINIMISE_DEADLINE[0] = time.time() + minimise_allowance
                 try:
-                    small = vlib.minimise(drv, comp.model, ops, pred, with_model, comp.extra_env())
+                    small = vlib.minimise(drv, comp.model, ops, pred, with_model, comp.extra_env(),
+                                          seconds=60 if tier == "quick" else 300)
                 except Exception as e:  # keep the unminimised case
                     log("minimise failed:", e)
                     small = ops
